@@ -42,6 +42,10 @@ def units(tier, seed):
         for pol in S.POLICIES:
             for k in range(nch):
                 u.append(dict(seam="frame", frame=fr, ego=list(ego), policy=pol, kmax=kmax, chunk=[k, nch], tier=tier))
+    # unknown-labelled ground truth with 'unknown' among the target labels (label compatibility towards an unknown ground truth)
+    for fr, ego in frames[:2]:
+        for pol in S.POLICIES:
+            u.append(dict(seam="frame", family="unknown_gt", frame=fr, ego=list(ego), policy=pol, kmax=2 if tier == "quick" else 3, chunk=[0, 1], tier=tier))
     # manager seam: both manager-level filters, both frames
     for fr, ego in frames[:2]:
         for pol in S.POLICIES:
@@ -63,6 +67,13 @@ MGR_REF = {"wide": dict(target_labels=S.LABELS, max_x=[100.0, 100.0], max_y=[100
 
 
 def run_unit(unit, acc):
+    if unit.get("family") == "unknown_gt":
+        est, gt = _pools3(_SEED[0])
+        for es in S.sublists(len(est), unit["kmax"]):
+            for gs in S.sublists(len(gt), unit["kmax"]):
+                check_case(dict(seam="frame", family="unknown_gt", frame=unit["frame"], ego=unit["ego"], policy=unit["policy"],
+                                ests=[est[i] for i in es], gts=[gt[j] for j in gs], crits=["box3"], thrs=["per_label3"]), acc)
+        return
     est, gt = S.pools(_SEED[0])
     if unit["seam"] == "manager" and unit["tier"] == "quick":
         est, gt = [est[i] for i in (0, 1, 3, 4, 5, 7)], [gt[j] for j in (0, 1, 3, 4, 7)]
@@ -85,6 +96,33 @@ def run_unit(unit, acc):
             check_case(case, acc)
 
 
+LABELS3 = ["CAR", "PEDESTRIAN", "UNKNOWN"]
+CRIT3 = {"box3": dict(max_x=[12.0, 12.0, 12.0], max_y=[6.0, 6.0, 6.0])}
+THR3 = {"per_label3": [0.5, 2.0, 1.0]}
+
+
+def _params(case, crit, thr):
+    """-> (target label names, reference filter cfg, pass/fail threshold list) of a case."""
+    if case.get("family") == "unknown_gt":
+        return LABELS3, dict(CRIT3[crit], target_labels=LABELS3), THR3[thr]
+    return S.LABELS, S.crit_ref_cfg(crit), S.THR[thr]
+
+
+def _pools3(seed):
+    jx, jy = G.jitter(seed)
+    est = [dict(x=5.31 + jx, y=-0.17 + jy, yaw=0.5, label="CAR"), dict(x=5.4 + jy, y=0.6, yaw=0.4, label="UNKNOWN"),
+           dict(x=6.2 + jx, y=-2.4, yaw=-0.4, label="PEDESTRIAN", size=[0.6, 0.6, 1.7]), dict(x=9.3, y=3.2 + jx, yaw=-1.0, label="PEDESTRIAN", size=[0.6, 0.6, 1.7])]
+    gt = [dict(x=5.0 + jx, y=0.0 + jy, yaw=0.4, label="UNKNOWN"), dict(x=9.0 + jy, y=3.0 + jx, yaw=-1.1, label="CAR"),
+          dict(x=6.0 + jx, y=-2.5, yaw=2.9, label="PEDESTRIAN", size=[0.6, 0.6, 1.7]), dict(x=14.0, y=-1.0 + jy, yaw=0.4, label="UNKNOWN")]
+    for i, s_ in enumerate(gt):
+        s_.setdefault("size", [2.0, 4.0, 1.5])
+        s_.update(uuid="g%d" % i, z=0.0, pts=10, vel=[1.0, 0.5, 0.0])
+    for i, s_ in enumerate(est):
+        s_.setdefault("size", [2.0, 4.0, 1.5])
+        s_.update(uuid="e%d" % i, z=0.0, score=round(0.93 - 0.07 * i, 3), vel=[1.0, 0.4, 0.0])
+    return est, gt
+
+
 def _status_vector(case, fr, ests, gts):
     p = fr.pass_fail_result
     ev, gv = [], []
@@ -102,7 +140,7 @@ def _status_vector(case, fr, ests, gts):
     return tuple(ev), tuple(gv)
 
 
-def _check_frame(case, crit, thr, fr, ests, gts, pre_e, pre_g, acc, label=""):
+def _check_frame(case, crit, thr, fr, ests, gts, pre_e, pre_g, acc, label="", pre_results=None):
     """pre_e / pre_g: indices of estimates / ground truths that reach the frame evaluation (after the manager filter)."""
     p = fr.pass_fail_result
     R = fr.object_results
@@ -116,8 +154,7 @@ def _check_frame(case, crit, thr, fr, ests, gts, pre_e, pre_g, acc, label=""):
             label, msg, case["seam"], case["frame"], case["policy"], crit, thr, ev, gv,
             [(G.index_of(r.estimated_object, ests), None if r.ground_truth_object is None else G.index_of(r.ground_truth_object, gts)) for r in R]), one)
 
-    cfg = S.crit_ref_cfg(crit)
-    tlist = S.THR[thr]
+    labels, cfg, tlist = _params(case, crit, thr)
     # reference membership in the critical region ------------------------------------------------
     near = False
     keep_e, keep_g = {}, {}
@@ -153,6 +190,17 @@ def _check_frame(case, crit, thr, fr, ests, gts, pre_e, pre_g, acc, label=""):
     for x in list(p.tp_object_results) + list(p.fp_object_results):
         if not any(x.estimated_object is r.estimated_object for r in R):
             bad("tpfp-not-in-results", "a TP/FP entry does not belong to the surviving results")
+    # conversely every estimate inside the critical region survives unless the ground truth it was paired with is outside
+    survivors = {G.index_of(r.estimated_object, ests) for r in R}
+    dropped_gt = [j for j in pre_g if not keep_g[j]]
+    for i in pre_e:
+        if keep_e[i] and i not in survivors:
+            if pre_results is not None:
+                pj = pre_results.get(i, "absent")
+                if pj == "absent" or pj is None or keep_g.get(pj, True):
+                    bad("estimate-inside-dropped", "estimate %d lies inside the critical region (paired ground truth: %s) but its result was dropped" % (i, pj))
+            elif not dropped_gt:
+                bad("estimate-inside-dropped", "estimate %d lies inside the critical region and no ground truth was removed, but its result was dropped" % i)
     # critical ground truths = reference filter (identity, order)
     want_g = [j for j in pre_g if keep_g[j]]
     got_g = [G.index_of(o, gts) for o in Gc]
@@ -186,7 +234,7 @@ def _check_frame(case, crit, thr, fr, ests, gts, pre_e, pre_g, acc, label=""):
         if i is None or j is None:
             continue
         el, gl = case["ests"][i]["label"], case["gts"][j]["label"]
-        t = tlist[S.LABELS.index(gl)] if gl in S.LABELS else None
+        t = tlist[labels.index(gl)] if gl in labels else None
         if not RL.compatible(case["policy"], el, gl):
             bad("tp-incompatible", "TP (%d,%d) pairs labels %s/%s, incompatible under %s" % (i, j, el, gl, case["policy"]))
         if t is None:
@@ -203,7 +251,7 @@ def _check_frame(case, crit, thr, fr, ests, gts, pre_e, pre_g, acc, label=""):
         if i is None or j is None:
             continue
         el, gl = case["ests"][i]["label"], case["gts"][j]["label"]
-        if gl in S.LABELS and RL.compatible(case["policy"], el, gl) and r.plane_distance.value < tlist[S.LABELS.index(gl)] - 1e-6:
+        if gl in labels and RL.compatible(case["policy"], el, gl) and r.plane_distance.value < tlist[labels.index(gl)] - 1e-6:
             if not any(x.estimated_object is r.estimated_object for x in p.tp_object_results):
                 bad("correct-pair-not-tp", "pair (%d,%d) is compatible and within the threshold but is not reported as TP" % (i, j))
     # (6) counters
@@ -223,7 +271,9 @@ def check_case(case, acc):
     if acc.cases % 1009 == 1:
         acc.sample(case)
     if case["seam"] == "frame":
-        ec = F.eval_config("detection", fr_id)
+        u3 = case.get("family") == "unknown_gt"
+        ec = F.eval_config("detection", fr_id, dict(target_labels=["car", "pedestrian", "unknown"], min_point_numbers=[0, 0, 0]) if u3 else None)
+        names = ("car", "pedestrian", "unknown") if u3 else ("car", "pedestrian")
         tf = G.transforms(ego)
         res = get_object_results(EvaluationTask.DETECTION, ests, gts, ec.target_labels, MatchingLabelPolicy[case["policy"]], transforms=tf)
         pre_e, pre_g = list(range(len(ests))), list(range(len(gts)))
@@ -231,8 +281,9 @@ def check_case(case, acc):
         for crit in case["crits"]:
             for thr in case["thrs"]:
                 acc.exec()
-                fr = F.evaluate_frame(ec, res, gts, ego, S.CRIT[crit], S.THR[thr], previous=prev)
-                _check_frame(case, crit, thr, fr, ests, gts, pre_e, pre_g, acc)
+                fr = F.evaluate_frame(ec, res, gts, ego, CRIT3[crit] if u3 else S.CRIT[crit], THR3[thr] if u3 else S.THR[thr], labels=names, previous=prev)
+                pre_results = {G.index_of(r.estimated_object, ests): (None if r.ground_truth_object is None else G.index_of(r.ground_truth_object, gts)) for r in res}
+                _check_frame(case, crit, thr, fr, ests, gts, pre_e, pre_g, acc, pre_results=pre_results)
     else:
         ov = dict(MGR_FILTER[case["mgr_filter"]], matching_label_policy=case["policy"])
         m = F.manager("detection", fr_id, ov)
@@ -247,12 +298,18 @@ def check_case(case, acc):
         for crit in case["crits"]:
             for thr in case["thrs"]:
                 m.frame_results = []
-                # two consecutive frames on one manager: the second must be accounted like the first
+                # two consecutive frames on one manager with the SAME configuration objects while the ego moves: the second frame
+                # (same ego-relative scene, new ego pose) must be accounted like the first
+                crit_cfg, pf_cfg = F.crit_config(m.evaluator_config, S.CRIT[crit]), F.pf_config(m.evaluator_config, S.THR[thr])
+                ego0 = tuple(case["ego"])
                 for rep in (0, 1):
+                    ego = ego0 if rep == 0 else (ego0[0] + 3.0, ego0[1] - 2.0, ego0[2] + 0.4)
+                    ests = [G.mk3d(s, fr_id, ego) for s in case["ests"]]
+                    gts = [G.mk3d(s, fr_id, ego) for s in case["gts"]]
                     acc.exec()
                     fg = F.frame_gt(gts, ego, 100 + rep, str(rep))
                     E = list(ests)
-                    fr = m.add_frame_result(100 + rep, fg, E, F.crit_config(m.evaluator_config, S.CRIT[crit]), F.pf_config(m.evaluator_config, S.THR[thr]))
+                    fr = m.add_frame_result(100 + rep, fg, E, crit_cfg, pf_cfg)
                     _check_frame(case, crit, thr, fr, ests, gts, pre_e, pre_g, acc, label="frame#%d: " % rep)
                     # estimates reaching the frame are exactly those passing the manager filter
                     got = sorted(G.index_of(r.estimated_object, ests) for r in fr.object_results)
